@@ -74,6 +74,8 @@ class _Gen:
         use_shared = r.random() < 0.6
         use_excl = r.random() < 0.55
         use_excl_ptr = r.random() < 0.3
+        use_excl_arr = r.random() < 0.2
+        self.use_excl_arr = use_excl_arr
         phases = r.choice([1, 2, 2, 3]) if (use_shared or use_excl) else r.choice([1, 1, 2])
         ind = "  "
         out = ""
@@ -81,6 +83,8 @@ class _Gen:
         form = r.choice(["up", "up", "le", "down", "tile"]) if not two_outer else "two"
         if form == "tile" and (use_shared or use_excl or use_excl_ptr or inner2 or phases > 1):
             form = "up"
+        if form == "tile":
+            self.use_excl_arr = use_excl_arr = False
         if form == "tile":
             self.features.add("tile")
             body = self.stmts(1, 0, "g", False, False, False, None, "      ")
@@ -138,6 +142,9 @@ class _Gen:
         if use_excl_ptr:
             decl += ind + "  @exclusive int *p;\n"
             self.features.add("exclusive-pointer")
+        if use_excl_arr:
+            decl += ind + "  @exclusive int ea[2];\n"
+            self.features.add("exclusive-array")
         out += decl
         # OKL inserts the barriers between sibling @inner loops itself when @shared data is involved
         # (okl/add_barriers); some kernels spell them out, some rely on that
@@ -219,10 +226,18 @@ class _Gen:
                 out += pad + "s[%s] = %s;\n" % (iexpr, self.val(g))
             if use_excl_ptr:
                 out += pad + "p = out1 + (8 + in0[%s] %% 3);\n" % g
+            if getattr(self, "use_excl_arr", False):
+                out += pad + "ea[0] = %s;\n" % self.val(g) + pad + "ea[1] = %s %% 7;\n" % g
         terms = [self.val(g)]
+        if getattr(self, "use_excl_arr", False) and (ph > 0 or r.random() < 0.5):
+            terms.append("ea[0] - ea[1]")
         if r.random() < 0.2:
             self.features.add("loop-in-inner")
-            out += pad + "int acc = 0;\n" + pad + "for (int t = 0; t < 3; ++t) {\n" + pad + "  acc += in1[(%s + t) %% 64];\n" % g + pad + "}\n"
+            skip = ""
+            if r.random() < 0.4:
+                self.features.add("continue-in-loop")
+                skip = pad + "  if (t == 1) {\n" + pad + "    continue;\n" + pad + "  }\n"
+            out += pad + "int acc = 0;\n" + pad + "for (int t = 0; t < 3; ++t) {\n" + skip + pad + "  acc += in1[(%s + t) %% 64];\n" % g + pad + "}\n"
             terms.append("acc")
         # a phase that rewrites its own tile element may read only that element (other elements are
         # being written by sibling iterations of the same phase)
@@ -313,10 +328,13 @@ def reference(src):
             l = l.replace("@exclusive int e;", "int e[64];")
         elif "@exclusive int *p;" in l:
             l = l.replace("@exclusive int *p;", "int *p[64];")
+        elif "@exclusive int ea[2];" in l:
+            l = l.replace("@exclusive int ea[2];", "int ea[64][2];")
         else:
             if iexpr is not None:
                 l = re.sub(r"(?<![A-Za-z0-9_])e(?![A-Za-z0-9_\[])", "e[%s]" % iexpr, l)
                 l = re.sub(r"(?<![A-Za-z0-9_])p(?![A-Za-z0-9_\[])", "p[%s]" % iexpr, l)
+                l = re.sub(r"(?<![A-Za-z0-9_])ea\[", "ea[%s][" % iexpr, l)
         l = l.replace("@barrier();", ";")
         l = l.replace("@atomic ", "")
         out.append(l)
